@@ -203,13 +203,17 @@ static void run_case(vh::Ctx & c, CaseData & cd)
     };
 
   const bool exact = cd.noise == 0;
-  LD rel_round = 64 * eps * amp;            // mapping error relative to mag
+  // rounding constant: means and covariances are sequential sums over n points, whose error grows
+  // like sqrt(n) eps (worst case n eps); 64 eps was exceeded by 2 % for n = 353 float points 1750
+  // extents from the origin (thorough seed 0), hence the n-dependence
+  const LD Kn = 16 * (4 + sqrtl((LD)s_used.size()));
+  LD rel_round = Kn * eps * amp;            // mapping error relative to mag
   // error of the rotation matrix itself: the rotation about the long axis of a thin 3D cloud is fixed
   // by the small singular values of the cross-covariance (squares of the extents), hence amp^2
-  LD rel_rot = 64 * eps * amp * amp * ratio;
+  LD rel_rot = Kn * eps * amp * amp * ratio;
   if (exact && rel_round >= 1e-2L) {c.skip("exact:vacuous_tolerance"); }
   LD tol_exact = std::max(cd.is_float ? 0.0L : 1e-9L, rel_round) * mag;
-  LD rel_cmp = 64 * eps * std::max<LD>(cond, amp);
+  LD rel_cmp = Kn * eps * std::max<LD>(cond, amp);
   bool cmp_ok = std::isfinite((double)rel_cmp) && rel_cmp < 1e-2L;
   if (!exact && !cmp_ok) {c.skip("noisy:vacuous_tolerance_or_degenerate_optimum");}
   LD tol_cmp = rel_cmp * mag;
